@@ -1122,6 +1122,10 @@ theorem classify_source_iff (ok : Bool) (o : Obj) : classify ok o = .ok .source 
     simp only [classify, reduceCtorEq, iff_false]
     repeat' split
     all_goals simp
+  | list els =>
+    simp only [classify, reduceCtorEq, iff_false]
+    repeat' split
+    all_goals simp
 
 /-- the explicit sequence types keep their type -/
 theorem classify_explicit (ok : Bool) :
